@@ -12,7 +12,7 @@ def run(chk):
     recs = core.run_driver('masks', tier=chk.tier, seed=chk.seed)
     chk.validate('masks', 'Trace_Masks', 'Trace_Masks.cfg', recs, driver='masks', jobs=14)
     goods = [r for r in recs if r['fn'] == 'wiener' and r['exc'] == '' and len(r['shape']) >= 2]
-    good = goods[0]
+    good = goods[0] if goods else None
 
     def corrupt(r):
         o = r['out']
